@@ -1170,6 +1170,13 @@ fn pi_blk0_entries(b: &[u8]) -> Option<usize> {
     // entry count of the first block's body (u32 LE at the start of the block data = header_size)
     rd_le(b, 0, 4).map(|h| h as usize)
 }
+fn ench_iv(b: &[u8]) -> Option<usize> {
+    Some(1 + *b.first()? as usize)
+}
+fn ench_type(b: &[u8]) -> Option<usize> {
+    let iv = ench_iv(b)?;
+    Some(iv + 1 + *b.get(iv)? as usize)
+}
 fn residency_pc(_: &[u8]) -> Option<usize> {
     Some(1)
 }
@@ -1189,7 +1196,11 @@ fn layout(fmt: &str) -> Vec<Fld> {
     const BLTE: &[Fld] = &[fb("magic", 0, 4), fb("header_size", 4, 4), fb("flags", 8, 1), fb("chunk_count", 9, 3), fb("c0_csize", 12, 4), fb("c0_dsize", 16, 4)];
     match fmt {
         "blte" | "blte_decompress" | "tvfs_blte" | "encoding_blte" => BLTE.to_vec(),
-        "blte_enc_header" => vec![fb("key_name_size", 0, 1), fb("iv_size", 9, 1), fb("enc_type", 14, 1)],
+        "blte_enc_header" => vec![
+            fb("key_name_size", 0, 1),
+            Fld { name: "iv_size", loc: Loc::Dyn(ench_iv), w: 1, be: true },
+            Fld { name: "enc_type", loc: Loc::Dyn(ench_type), w: 1, be: true },
+        ],
         "encoding" => vec![
             fb("magic", 0, 2),
             fb("version", 2, 1),
@@ -1993,7 +2004,8 @@ fn bp_extract(fmt: &str, ver: u64, bytes: &[u8]) -> Result<Vec<Value>, String> {
                     Some(c) => {
                         let kk = a_key16(&c.ekey);
                         let t = match &c.content_key {
-                            Some(ck) if ck.as_slice() == k16(0x62, ku) => 1,
+                            // the table stores pkey_size (9) bytes of the content key
+                            Some(ck) if ck.len() >= 9 && ck.len() <= 16 && ck.as_slice() == &k16(0x62, ku)[..ck.len()] => 1,
                             None => 0,
                             _ => -1,
                         };
